@@ -112,15 +112,15 @@ def jack_matmul(*operands):
             r = op if r is None else r @ op
         return _imp_from_jack_c(r, name, idl)
     else:
-        name = operands[0].flat[0].names[0]
-        idl = operands[0].flat[0].idl[name]
+        first = [o.flat[0] for o in operands if isinstance(o.flat[0], Obs)][0]
+        name = first.names[0]
+        idl = first.idl[name]
 
-        r = _exp_to_jack(operands[0])
-        for op in operands[1:]:
+        r = None
+        for op in operands:
             if isinstance(op.flat[0], Obs):
-                r = r @ _exp_to_jack(op)
-            else:
-                r = r @ op
+                op = _exp_to_jack(op)
+            r = op if r is None else r @ op
         return _imp_from_jack(r, name, idl)
 
 
